@@ -127,7 +127,9 @@ ElRef(op, a) ==
     [] op = "median_high" -> MedHighEl(a)
 Compact(s) == \A i \in 1..Len(s) : s[i].k \in {"int", "dec", "str"}
 Scalars == {"int", "dec", "str", "bint", "bdec", "text"}
-\* results of at most this many bits are multiplied out by TLC
+\* what TLC multiplies out: powers of a one-limb base up to this many estimated limb steps (2^5000, 3^5000,
+\* 7^2047, 20^2000), powers of longer bases up to this many bits
+PowExactSteps == 250000
 PowExactBits == 600
 
 IntRef(op, a, b, k) ==
@@ -171,15 +173,17 @@ Accept ==
     [] op = "isum"  -> Check(Ev.ok /\ Ev.r = BigSum(Ev.a), op)
     [] op = "iprod" -> Check(Ev.ok /\ Ev.r = BigProd(Ev.a), op)
     [] op \in IntOps -> Check(Ev.ok /\ Ev.r = IntRef(op, Ev.a, Ev.b, Ev.k), op)
-    \* pow with any int exponent >= 0 (limbs): multiplied out when the result is short (and for the
+    \* pow with any int exponent >= 0 (limbs): multiplied out when that is affordable (and for the
     \* bases 0, 1, -1 whatever the exponent), else validated through the necessary conditions
     \* LibOps!PowPlausible (the harness compares such a result with the host's power as well)
     [] op = "powx" ->
          IF Ev.kb.sg = 0 \/ Ev.a.sg = 0 \/ Abs(Ev.a) = One THEN Check(Ev.ok /\ Ev.r = PowX(Ev.a, Ev.kb), op)
          ELSE IF Len(Ev.kb.mag) > 2 THEN Bad("exponent-too-large-for-the-trace-spec")
-         ELSE IF BitsMag(Ev.a.mag) * ToInt(Ev.kb) <= PowExactBits
-              THEN Check(Ev.ok /\ Ev.r = Pow(Ev.a, ToInt(Ev.kb)), op)
-              ELSE Check(Ev.ok /\ PowPlausible(Ev.r, Ev.a, ToInt(Ev.kb)), op) /\ Note("pow-necessary-conditions")
+         ELSE LET k == ToInt(Ev.kb) IN
+              IF Len(Ev.a.mag) = 1 /\ k <= 20000 /\ PowCost(Ev.a.mag[1], k) <= PowExactSteps
+              THEN Check(Ev.ok /\ Ev.r = [sg |-> SignOfPow(Ev.a, k), mag |-> PowSmallMag(Ev.a.mag[1], k)], op)
+              ELSE IF BitsMag(Ev.a.mag) * k <= PowExactBits THEN Check(Ev.ok /\ Ev.r = Pow(Ev.a, k), op)
+              ELSE Check(Ev.ok /\ PowPlausible(Ev.r, Ev.a, k), op) /\ Note("pow-necessary-conditions")
     [] op \in BitOps ->
          LET want == Val(BitRef(op, WordOfBig(Ev.a), WordOfBig(Ev.b), Ev.n)) IN
          \* (shift counts >= 32 included: every bit is shifted out, the
